@@ -114,6 +114,11 @@ def gen_case(rng: common.Rng, in_scope: bool = True) -> dict[str, Any]:
         for e in hist:
             if rng.chance(0.5):
                 e["split"] = rng.pick(["f-first", "f-last", "one-by-one"])
+            # "within the tolerances": the tolerances in force when the solution is asked for. While the history
+            # is being recorded they are changed (and the solution queried under them), then set back.
+            if rng.chance(0.3):
+                e["tolflip"] = [rat(rng.pick([Fraction(0), Fraction(1, 4), Fraction(2), Fraction(5)])),
+                                rat(rng.pick([Fraction(0), Fraction(1, 4), Fraction(2), Fraction(5)]))]
     return case
 
 
@@ -167,6 +172,12 @@ def build_problem(case: dict[str, Any]):
                 vals[key] = fl[0] if e["scalar"].get(name) else np.array(fl)
         x = np.array(e["x"], dtype=float)
         split = e.get("split") if between else None
+        flipped = bool(between and e.get("tolflip"))
+        if flipped:
+            # other tolerances are in force while this point is recorded and queried (possibly the very first
+            # feasibility query made on the problem), and are set back afterwards
+            pb.tolerances.equality = float(Fraction(e["tolflip"][0]))
+            pb.tolerances.inequality = float(Fraction(e["tolflip"][1]))
         if split and len(vals) > 1:
             names = list(vals)
             if split == "f-first" and obj_db_name in vals:
@@ -182,6 +193,11 @@ def build_problem(case: dict[str, Any]):
             pb.database.store(x, vals)
             if between:
                 _query_solution(pb)
+        if flipped:
+            _query_solution(pb)
+            pb.tolerances.equality = float(Fraction(case["tol_eq"]))
+            pb.tolerances.inequality = float(Fraction(case["tol_in"]))
+            _query_solution(pb)
     return pb, obj_db_name
 
 
@@ -516,6 +532,8 @@ def check_cases(res: Result, cases: list[dict[str, Any]], in_scope: bool) -> Non
             res.count("queried-while-recording")
             if any(e.get("split") for e in case["hist"]):
                 res.count("queried-between-outputs-of-one-point")
+            if any(e.get("tolflip") for e in case["hist"]):
+                res.count("queried-under-other-tolerances-in-between")
         if n >= 2:
             res.nontrivial(line)
         res.sample({"protocol_line": line, "impl": obs["line"], "model": m})
